@@ -199,3 +199,641 @@ Qed.
 
 Lemma C14_matcher_proof : C14_matcher_stmt.
 Proof. intros r s. apply matches_b_correct. Qed.
+(* ================================================================================================ *)
+(* 2. maximal munch                                                                                 *)
+(* ================================================================================================ *)
+
+Definition MatchAt (rs : list regex) (w : list N) (j : nat) : Prop :=
+  exists r, nth_error rs j = Some r /\ Matches r w.
+
+Lemma MatchAt_deriv : forall rs c x j,
+  MatchAt rs (c :: x) j <-> MatchAt (map (deriv c) rs) x j.
+Proof.
+  intros rs c x j; unfold MatchAt; split.
+  - intros [r [Hn Hm]]. exists (deriv c r). split.
+    + rewrite nth_error_map, Hn. reflexivity.
+    + apply deriv_correct. exact Hm.
+  - intros [r' [Hn Hm]]. rewrite nth_error_map in Hn.
+    destruct (nth_error rs j) as [r |] eqn:En; [| discriminate].
+    cbn [option_map] in Hn. injection Hn as Hn; subst r'.
+    exists r. split; [reflexivity | apply deriv_correct; exact Hm].
+Qed.
+
+Definition NoneMatch (rs : list regex) (s : list N) : Prop :=
+  forall m j, 0 < m <= length s -> ~ MatchAt rs (firstn m s) j.
+
+Definition BestAt (rs : list regex) (s : list N) (m i : nat) : Prop :=
+  0 < m <= length s /\
+  MatchAt rs (firstn m s) i /\
+  (forall j, j < i -> ~ MatchAt rs (firstn m s) j) /\
+  (forall m' j, m < m' <= length s -> ~ MatchAt rs (firstn m' s) j).
+
+Lemma first_nullable_some : forall rs k i, first_nullable rs k = Some i ->
+  exists i', i = k + i' /\
+    (exists r, nth_error rs i' = Some r /\ nullable r = true) /\
+    (forall j r, j < i' -> nth_error rs j = Some r -> nullable r = false).
+Proof.
+  induction rs as [| r t IH]; intros k i H; cbn [first_nullable] in H.
+  - discriminate.
+  - destruct (nullable r) eqn:En.
+    + injection H as H; subst i. exists 0. split; [lia |]. split.
+      * exists r. split; [reflexivity | exact En].
+      * intros j r' Hj; lia.
+    + apply IH in H. destruct H as [i' [Ei [[r' [Hn Hr']] Hlt]]].
+      exists (S i'). split; [lia |]. split.
+      * exists r'. split; [exact Hn | exact Hr'].
+      * intros j r'' Hj Hnj. destruct j as [| j'].
+        -- cbn [nth_error] in Hnj. injection Hnj as Hnj; subst r''. exact En.
+        -- cbn [nth_error] in Hnj. eapply Hlt; [| exact Hnj]. lia.
+Qed.
+
+Lemma first_nullable_none : forall rs k, first_nullable rs k = None ->
+  forall j r, nth_error rs j = Some r -> nullable r = false.
+Proof.
+  induction rs as [| r t IH]; intros k H j r' Hn; cbn [first_nullable] in H.
+  - destruct j; discriminate.
+  - destruct (nullable r) eqn:En; [discriminate |].
+    destruct j as [| j']; cbn [nth_error] in Hn.
+    + injection Hn as Hn; subst r'. exact En.
+    + eapply IH; [exact H | exact Hn].
+Qed.
+
+Lemma forallb_is_empty_nth : forall rs, forallb is_empty rs = true ->
+  forall j r, nth_error rs j = Some r -> r = Empty.
+Proof.
+  intros rs H j r Hn. rewrite forallb_forall in H.
+  apply nth_error_In in Hn. apply H in Hn. destruct r; try discriminate. reflexivity.
+Qed.
+
+Lemma munch_cons : forall rs c t n best,
+  munch rs (c :: t) n best =
+  if forallb is_empty (map (deriv c) rs) then best
+  else munch (map (deriv c) rs) t (S n)
+         (match first_nullable (map (deriv c) rs) 0 with Some i => Some (S n, i) | None => best end).
+Proof. reflexivity. Qed.
+
+Lemma munch_spec : forall s rs n best,
+  (munch rs s n best = best /\ NoneMatch rs s) \/
+  (exists m i, munch rs s n best = Some (n + m, i) /\ BestAt rs s m i).
+Proof.
+  induction s as [| c t IH]; intros rs n best.
+  - left. split; [reflexivity |]. intros m j Hm. cbn [length] in Hm. lia.
+  - rewrite munch_cons. set (rs' := map (deriv c) rs).
+    assert (Hstep : forall m j, MatchAt rs (firstn (S m) (c :: t)) j <-> MatchAt rs' (firstn m t) j).
+    { intros m j. cbn [firstn]. apply MatchAt_deriv. }
+    destruct (forallb is_empty rs') eqn:Eall.
+    + left. split; [reflexivity |].
+      intros m j Hm HM. destruct m as [| m']; [lia |].
+      apply Hstep in HM. destruct HM as [r [Hn Hr]].
+      apply (forallb_is_empty_nth _ Eall) in Hn. subst r. exact (M_Empty_inv _ Hr).
+    + destruct (first_nullable rs' 0) as [i0 |] eqn:Efn.
+      * (* a match of length 1 *)
+        apply first_nullable_some in Efn.
+        destruct Efn as [i' [Ei [[r0 [Hn0 Hnull0]] Hlt0]]]. cbn [Nat.add] in Ei. subst i'.
+        assert (B1 : MatchAt rs (firstn 1 (c :: t)) i0).
+        { apply Hstep. exists r0. split; [exact Hn0 |]. cbn [firstn]. apply nullable_correct; exact Hnull0. }
+        assert (B2 : forall j, j < i0 -> ~ MatchAt rs (firstn 1 (c :: t)) j).
+        { intros j Hj HM. apply Hstep in HM. destruct HM as [r [Hn Hr]]. cbn [firstn] in Hr.
+          apply nullable_correct in Hr. rewrite (Hlt0 j r Hj Hn) in Hr. discriminate. }
+        destruct (IH rs' (S n) (Some (S n, i0))) as [[Hres Hnone] | [m [i [Hres Hbest]]]].
+        -- right. exists 1, i0. split; [rewrite Hres; f_equal; f_equal; lia |].
+           split; [cbn [length]; lia |]. split; [exact B1 |]. split; [exact B2 |].
+           intros m' j Hm' HM. destruct m' as [| m'']; [lia |].
+           apply Hstep in HM. apply (Hnone m'' j); [cbn [length] in Hm'; lia | exact HM].
+        -- right. exists (S m), i. split; [rewrite Hres; f_equal; f_equal; lia |].
+           destruct Hbest as [Hm [HMi [Hearlier Hlonger]]].
+           split; [cbn [length]; lia |]. split; [apply Hstep; exact HMi |].
+           split.
+           ++ intros j Hj HM. apply Hstep in HM. exact (Hearlier j Hj HM).
+           ++ intros m' j Hm' HM. destruct m' as [| m'']; [lia |].
+              apply Hstep in HM. apply (Hlonger m'' j); [cbn [length] in Hm'; lia | exact HM].
+      * (* no match of length 1 *)
+        assert (B0 : forall j, ~ MatchAt rs (firstn 1 (c :: t)) j).
+        { intros j HM. apply Hstep in HM. destruct HM as [r [Hn Hr]]. cbn [firstn] in Hr.
+          apply nullable_correct in Hr. rewrite (first_nullable_none _ _ Efn j r Hn) in Hr. discriminate. }
+        destruct (IH rs' (S n) best) as [[Hres Hnone] | [m [i [Hres Hbest]]]].
+        -- left. split; [exact Hres |].
+           intros m j Hm HM. destruct m as [| m']; [lia |].
+           destruct m' as [| m''].
+           ++ exact (B0 j HM).
+           ++ apply Hstep in HM. apply (Hnone (S m'') j); [cbn [length] in Hm; lia | exact HM].
+        -- right. exists (S m), i. split; [rewrite Hres; f_equal; f_equal; lia |].
+           destruct Hbest as [Hm [HMi [Hearlier Hlonger]]].
+           split; [cbn [length]; lia |]. split; [apply Hstep; exact HMi |].
+           split.
+           ++ intros j Hj HM. apply Hstep in HM. exact (Hearlier j Hj HM).
+           ++ intros m' j Hm' HM. destruct m' as [| m'']; [lia |].
+              apply Hstep in HM. apply (Hlonger m'' j); [cbn [length] in Hm'; lia | exact HM].
+Qed.
+
+Lemma nth_error_map_fst : forall (rules : list rule) j r,
+  nth_error (map fst rules) j = Some r <-> exists a, nth_error rules j = Some (r, a).
+Proof.
+  intros rules j r. rewrite nth_error_map. unfold rule in *. split.
+  - destruct (nth_error rules j) as [[r' a] |]; cbn [option_map fst]; [| intro; discriminate].
+    intro H; injection H as H; subst r'. exists a; reflexivity.
+  - intros [a Ha]. rewrite Ha. reflexivity.
+Qed.
+
+Lemma MatchAt_rules : forall (rules : list rule) w j,
+  MatchAt (map fst rules) w j <-> exists r a, nth_error rules j = Some (r, a) /\ Matches r w.
+Proof.
+  intros rules w j; unfold MatchAt; split.
+  - intros [r [Hn Hm]]. apply nth_error_map_fst in Hn. destruct Hn as [a Ha]. exists r, a. auto.
+  - intros [r [a [Hn Hm]]]. exists r. split; [apply nth_error_map_fst; exists a; exact Hn | exact Hm].
+Qed.
+
+Lemma BestAt_MaxMunch : forall rules s m i, BestAt (map fst rules) s m i -> MaxMunch rules s m i.
+Proof.
+  intros rules s m i [Hm [HMi [Hearlier Hlonger]]].
+  split; [exact Hm |]. split; [apply MatchAt_rules; exact HMi |]. split.
+  - intros j r a len' Hn Hlen HM.
+    destruct (le_lt_dec len' m) as [Hle | Hgt]; [exact Hle |].
+    exfalso. apply (Hlonger len' j); [lia |]. apply MatchAt_rules. exists r, a. auto.
+  - intros j r a Hj Hn HM. apply (Hearlier j Hj). apply MatchAt_rules. exists r, a. auto.
+Qed.
+
+Lemma NoneMatch_NoMatch : forall rules s, NoneMatch (map fst rules) s -> NoMatch rules s.
+Proof.
+  intros rules s H j r a len Hn Hlen HM. apply (H len j Hlen). apply MatchAt_rules. exists r, a. auto.
+Qed.
+
+Lemma max_munch_sound : forall rules s len i,
+  max_munch rules s = Some (len, i) -> MaxMunch rules s len i.
+Proof.
+  intros rules s len i H. unfold max_munch in H.
+  destruct (munch_spec s (map fst rules) 0 None) as [[Hres _] | [m [i' [Hres Hbest]]]].
+  - rewrite Hres in H. discriminate.
+  - rewrite Hres in H. cbn [Nat.add] in H. injection H as H1 H2. subst m i'.
+    apply BestAt_MaxMunch. exact Hbest.
+Qed.
+
+Lemma max_munch_none : forall rules s, max_munch rules s = None -> NoMatch rules s.
+Proof.
+  intros rules s H. unfold max_munch in H.
+  destruct (munch_spec s (map fst rules) 0 None) as [[_ Hnone] | [m [i' [Hres _]]]].
+  - apply NoneMatch_NoMatch. exact Hnone.
+  - rewrite Hres in H. discriminate.
+Qed.
+
+Lemma MaxMunch_unique : forall rules s len i len' i',
+  MaxMunch rules s len i -> MaxMunch rules s len' i' -> len = len' /\ i = i'.
+Proof.
+  intros rules s len i len' i' [Hl [[r [a [Hn HM]]] [Hlong Hearly]]] [Hl' [[r' [a' [Hn' HM']]] [Hlong' Hearly']]].
+  assert (E : len = len').
+  { assert (len' <= len) by (eapply Hlong; [exact Hn' | lia | exact HM']).
+    assert (len <= len') by (eapply Hlong'; [exact Hn | lia | exact HM]).
+    lia. }
+  subst len'. split; [reflexivity |].
+  destruct (lt_eq_lt_dec i i') as [[Hlt | Heq] | Hgt].
+  - exfalso. exact (Hearly' i r a Hlt Hn HM).
+  - exact Heq.
+  - exfalso. exact (Hearly i' r' a' Hgt Hn' HM').
+Qed.
+
+Lemma C14_maxmunch_proof : C14_maxmunch_stmt.
+Proof.
+  intros rules s. split; [| split].
+  - intros len i. apply max_munch_sound.
+  - apply max_munch_none.
+  - intros len i len' i'. apply MaxMunch_unique.
+Qed.
+
+Lemma MaxMunch_max_munch : forall rules s len i,
+  MaxMunch rules s len i -> max_munch rules s = Some (len, i).
+Proof.
+  intros rules s len i H.
+  destruct (max_munch rules s) as [[len' i'] |] eqn:E.
+  - apply max_munch_sound in E. destruct (MaxMunch_unique _ _ _ _ _ _ E H) as [-> ->]. reflexivity.
+  - apply max_munch_none in E. exfalso.
+    destruct H as [Hl [[r [a [Hn HM]]] _]]. exact (E i r a len Hn Hl HM).
+Qed.
+(* ================================================================================================ *)
+(* 3. next_token / lex_all                                                                          *)
+(* ================================================================================================ *)
+
+Lemma next_token_O : forall rules s line, next_token 0 rules s line = None.
+Proof. reflexivity. Qed.
+
+Lemma next_token_nil : forall f rules line, next_token f rules [] line = None.
+Proof. intros f rules line; destruct f; reflexivity. Qed.
+
+Lemma next_token_cons : forall f rules c t line,
+  next_token (S f) rules (c :: t) line =
+  match max_munch rules (c :: t) with
+  | None => next_token f rules t line
+  | Some (len, i) =>
+      match nth_error rules i with
+      | Some (_, Some k) =>
+          Some (k, firstn len (c :: t), (line + count_nl (firstn len (c :: t)))%Z, skipn len (c :: t))
+      | _ => next_token f rules (skipn len (c :: t)) (line + count_nl (firstn len (c :: t)))%Z
+      end
+  end.
+Proof. reflexivity. Qed.
+
+Lemma lex_all_O : forall rules s line, lex_all 0 rules s line = [].
+Proof. reflexivity. Qed.
+
+Lemma lex_all_S : forall f rules s line,
+  lex_all (S f) rules s line =
+  match next_token (S (length s)) rules s line with
+  | None => []
+  | Some (k, text, line', rest) => (k, text, line') :: lex_all f rules rest line'
+  end.
+Proof. reflexivity. Qed.
+
+Lemma max_munch_bounds : forall rules s len i,
+  max_munch rules s = Some (len, i) -> 0 < len <= length s.
+Proof. intros rules s len i H. apply max_munch_sound in H. destruct H as [H _]. exact H. Qed.
+
+Lemma skipn_shorter : forall (A : Type) len (s : list A), 0 < len <= length s -> length (skipn len s) < length s.
+Proof. intros A len s H. rewrite skipn_length. lia. Qed.
+
+(* the remaining input is strictly shorter after every token *)
+Lemma next_token_rest_lt : forall f rules s line k text line' rest,
+  next_token f rules s line = Some (k, text, line', rest) -> length rest < length s.
+Proof.
+  induction f as [| f IH]; intros rules s line k text line' rest H.
+  - discriminate.
+  - destruct s as [| c t]; [discriminate |].
+    rewrite next_token_cons in H.
+    destruct (max_munch rules (c :: t)) as [[len i] |] eqn:Emm.
+    + pose proof (skipn_shorter _ _ _ (max_munch_bounds _ _ _ _ Emm)) as Hlt.
+      destruct (nth_error rules i) as [[r [k0 |]] |].
+      * injection H as _ _ _ H. subst rest. exact Hlt.
+      * apply IH in H. lia.
+      * apply IH in H. lia.
+    + apply IH in H. cbn [length]. lia.
+Qed.
+
+(* the kind of a token is the action of some rule *)
+Lemma next_token_kind : forall f rules s line k text line' rest,
+  next_token f rules s line = Some (k, text, line', rest) -> exists r, In (r, Some k) rules.
+Proof.
+  induction f as [| f IH]; intros rules s line k text line' rest H.
+  - discriminate.
+  - destruct s as [| c t]; [discriminate |].
+    rewrite next_token_cons in H.
+    destruct (max_munch rules (c :: t)) as [[len i] |] eqn:Emm.
+    + destruct (nth_error rules i) as [[r [k0 |]] |] eqn:En.
+      * injection H as H _ _ _. subst k0. exists r. eapply nth_error_In; exact En.
+      * eapply IH; exact H.
+      * eapply IH; exact H.
+    + eapply IH; exact H.
+Qed.
+
+(* any fuel above the length of the input gives the same answer *)
+Lemma next_token_fuel : forall f1 f2 rules s line,
+  length s < f1 -> length s < f2 -> next_token f1 rules s line = next_token f2 rules s line.
+Proof.
+  induction f1 as [| f1 IH]; intros f2 rules s line H1 H2; [lia |].
+  destruct f2 as [| f2]; [lia |].
+  destruct s as [| c t]; [reflexivity |].
+  rewrite !next_token_cons.
+  destruct (max_munch rules (c :: t)) as [[len i] |] eqn:Emm.
+  - pose proof (skipn_shorter _ _ _ (max_munch_bounds _ _ _ _ Emm)) as Hlt.
+    destruct (nth_error rules i) as [[r [k0 |]] |]; [reflexivity | |]; apply IH; lia.
+  - apply IH; cbn [length] in *; lia.
+Qed.
+
+Lemma catch_all_some : forall rules c t, catch_all rules -> max_munch rules (c :: t) <> None.
+Proof.
+  intros rules c t Hca E. apply max_munch_none in E.
+  destruct (Hca c) as [j [r [a [Hn HM]]]].
+  apply (E j r a 1 Hn); [cbn [length]; lia | exact HM].
+Qed.
+
+Lemma next_token_tok : forall rules, catch_all rules -> forall f s line, length s < f ->
+  match next_token f rules s line with
+  | None => Tokenisation rules s line []
+  | Some (k, text, line', rest) =>
+      forall out, Tokenisation rules rest line' out -> Tokenisation rules s line ((k, text, line') :: out)
+  end.
+Proof.
+  intros rules Hca. induction f as [| f IH]; intros s line Hf; [lia |].
+  destruct s as [| c t].
+  - rewrite next_token_nil. constructor.
+  - rewrite next_token_cons.
+    destruct (max_munch rules (c :: t)) as [[len i] |] eqn:Emm.
+    + pose proof (max_munch_sound _ _ _ _ Emm) as HMM.
+      pose proof (skipn_shorter _ _ _ (max_munch_bounds _ _ _ _ Emm)) as Hlt.
+      assert (Hne : c :: t <> []) by discriminate.
+      destruct (nth_error rules i) as [[r [k0 |]] |] eqn:En.
+      * intros out Hout. eapply Tok_emit; eauto.
+      * specialize (IH (skipn len (c :: t)) (line + count_nl (firstn len (c :: t)))%Z).
+        assert (Hf' : length (skipn len (c :: t)) < f) by lia.
+        specialize (IH Hf').
+        destruct (next_token f rules (skipn len (c :: t)) (line + count_nl (firstn len (c :: t)))%Z)
+          as [[[[k1 text1] line1] rest1] |].
+        -- intros out Hout. eapply Tok_skip; eauto.
+        -- eapply Tok_skip; eauto.
+      * exfalso. destruct HMM as [_ [[r [a [Hn _]]] _]]. rewrite En in Hn. discriminate.
+    + exfalso. exact (catch_all_some _ _ _ Hca Emm).
+Qed.
+
+Lemma lex_all_tok : forall rules, catch_all rules -> forall f s line, length s < f ->
+  Tokenisation rules s line (lex_all f rules s line).
+Proof.
+  intros rules Hca. induction f as [| f IH]; intros s line Hf; [lia |].
+  rewrite lex_all_S.
+  pose proof (next_token_tok rules Hca (S (length s)) s line (Nat.lt_succ_diag_r _)) as Hnt.
+  destruct (next_token (S (length s)) rules s line) as [[[[k text] line'] rest] |] eqn:E.
+  - apply Hnt. apply IH. apply next_token_rest_lt in E. lia.
+  - exact Hnt.
+Qed.
+
+Lemma lex_all_unique : forall rules s line out, Tokenisation rules s line out ->
+  forall f, length s < f -> out = lex_all f rules s line.
+Proof.
+  intros rules s line out H.
+  induction H as [ line | s line len i r out Hne HMM Hn HT IH | s line len i r k out Hne HMM Hn HT IH ];
+    intros f Hf.
+  - destruct f; [lia |]. rewrite lex_all_S, next_token_nil. reflexivity.
+  - destruct f as [| f]; [lia |].
+    destruct s as [| c t]; [contradiction |].
+    pose proof (MaxMunch_max_munch _ _ _ _ HMM) as Emm.
+    pose proof (skipn_shorter _ _ _ (max_munch_bounds _ _ _ _ Emm)) as Hlt.
+    rewrite (IH (S f)) by lia.
+    rewrite !lex_all_S. rewrite next_token_cons, Emm, Hn.
+    rewrite (next_token_fuel (length (c :: t)) (S (length (skipn len (c :: t))))) by lia.
+    reflexivity.
+  - destruct f as [| f]; [lia |].
+    destruct s as [| c t]; [contradiction |].
+    pose proof (MaxMunch_max_munch _ _ _ _ HMM) as Emm.
+    pose proof (skipn_shorter _ _ _ (max_munch_bounds _ _ _ _ Emm)) as Hlt.
+    rewrite lex_all_S. rewrite next_token_cons, Emm, Hn.
+    rewrite <- (IH f) by lia. reflexivity.
+Qed.
+
+Lemma C14_lex_proof : C14_lex_stmt.
+Proof.
+  intros rules s Hca. unfold lex. split.
+  - apply lex_all_tok; [exact Hca | lia].
+  - intros out H. apply lex_all_unique; [exact H | lia].
+Qed.
+(* ================================================================================================ *)
+(* 4. meaning of rules_agree                                                                        *)
+(* ================================================================================================ *)
+
+Lemma str_eqb_eq : forall a b, str_eqb a b = true <-> a = b.
+Proof.
+  induction a as [| x a IH]; destruct b as [| y b]; cbn [str_eqb]; split; intro H;
+    try reflexivity; try discriminate.
+  - apply andb_true_iff in H. destruct H as [H1 H2]. apply N.eqb_eq in H1. apply IH in H2.
+    subst; reflexivity.
+  - injection H as H1 H2. subst y b. rewrite N.eqb_refl. cbn [andb]. apply IH. reflexivity.
+Qed.
+
+Lemma pairs_eqb_eq : forall (rs rs' : list (N * N)), length rs = length rs' ->
+  forallb (fun p => N.eqb (fst (fst p)) (fst (snd p)) && N.eqb (snd (fst p)) (snd (snd p)))
+          (combine rs rs') = true -> rs = rs'.
+Proof.
+  induction rs as [| [a b] rs IH]; destruct rs' as [| [a' b'] rs']; intros Hl H;
+    cbn [length] in Hl; try discriminate; [reflexivity |].
+  cbn [combine forallb fst snd] in H. apply andb_true_iff in H. destruct H as [H1 H2].
+  apply andb_true_iff in H1. destruct H1 as [Ha Hb]. apply N.eqb_eq in Ha. apply N.eqb_eq in Hb.
+  subst a' b'. f_equal. apply IH; [lia | exact H2].
+Qed.
+
+Lemma regex_eqb_eq : forall a b, regex_eqb a b = true -> a = b.
+Proof.
+  induction a as [ | | c | neg rs | a1 IH1 a2 IH2 | a1 IH1 a2 IH2 | a1 IH1 ]; intros b H;
+    destruct b as [ | | d | neg' rs' | b1 b2 | b1 b2 | b1 ]; cbn [regex_eqb] in H; try discriminate.
+  - reflexivity.
+  - reflexivity.
+  - apply N.eqb_eq in H. subst; reflexivity.
+  - apply andb_true_iff in H. destruct H as [H H3]. apply andb_true_iff in H. destruct H as [H1 H2].
+    apply eqb_prop in H1. apply Nat.eqb_eq in H2. subst neg'. f_equal. apply pairs_eqb_eq; assumption.
+  - apply andb_true_iff in H. destruct H as [H1 H2]. f_equal; [apply IH1 | apply IH2]; assumption.
+  - apply andb_true_iff in H. destruct H as [H1 H2]. f_equal; [apply IH1 | apply IH2]; assumption.
+  - f_equal. apply IH1; assumption.
+Qed.
+
+Lemma lang_correct : forall r, star_free r = true -> forall w, Matches r w <-> In w (lang r).
+Proof.
+  induction r as [ | | c | neg rs | a IHa b IHb | a IHa b IHb | a IHa ]; intros Hsf w;
+    cbn [star_free] in Hsf; cbn [lang]; try discriminate.
+  - split; [intro H; destruct (M_Empty_inv _ H) | intros []].
+  - rewrite M_Eps_inv. cbn [In]. split; [intros ->; left; reflexivity | intros [H | []]; symmetry; exact H].
+  - rewrite M_Chr_inv. cbn [In]. split; [intros ->; left; reflexivity | intros [H | []]; symmetry; exact H].
+  - apply andb_true_iff in Hsf. destruct Hsf as [Ha Hb].
+    rewrite M_Cat_inv, in_flat_map. split.
+    + intros [s1 [s2 [E [H1 H2]]]]. exists s1. split; [apply (IHa Ha); exact H1 |].
+      apply in_map_iff. exists s2. split; [symmetry; exact E | apply (IHb Hb); exact H2].
+    + intros [s1 [H1 H2]]. apply in_map_iff in H2. destruct H2 as [s2 [E H2]].
+      exists s1, s2. split; [symmetry; exact E |]. split; [apply (IHa Ha) | apply (IHb Hb)]; assumption.
+  - apply andb_true_iff in Hsf. destruct Hsf as [Ha Hb].
+    rewrite M_Alt_inv, in_app_iff, (IHa Ha), (IHb Hb). reflexivity.
+Qed.
+
+Lemma word_in_iff : forall w l, word_in w l = true <-> In w l.
+Proof.
+  intros w l. unfold word_in. rewrite existsb_exists. split.
+  - intros [x [Hx E]]. apply str_eqb_eq in E. subst. exact Hx.
+  - intro H. exists w. split; [exact H | apply str_eqb_eq; reflexivity].
+Qed.
+
+Lemma same_words_iff : forall l1 l2, same_words l1 l2 = true -> forall w, In w l1 <-> In w l2.
+Proof.
+  intros l1 l2 H w. unfold same_words in H. apply andb_true_iff in H. destruct H as [H1 H2].
+  rewrite forallb_forall in H1. rewrite forallb_forall in H2.
+  split; intro Hw; [apply H1 in Hw | apply H2 in Hw]; apply word_in_iff in Hw; exact Hw.
+Qed.
+
+Definition tk_of_num (n : N) : tkind := nth (N.to_nat n) all_tkinds T_EOF.
+Lemma tk_of_num_num : forall k, tk_of_num (tk_num k) = k.
+Proof. destruct k; reflexivity. Qed.
+
+Lemma tk_eqb_eq : forall x y, tk_eqb x y = true -> x = y.
+Proof.
+  intros x y H. unfold tk_eqb in H. apply N.eqb_eq in H.
+  rewrite <- (tk_of_num_num x), <- (tk_of_num_num y), H. reflexivity.
+Qed.
+Lemma tk_eqb_refl : forall x, tk_eqb x x = true.
+Proof. intro x. unfold tk_eqb. apply N.eqb_refl. Qed.
+
+Lemma action_eqb_eq : forall a b, action_eqb a b = true -> a = b.
+Proof.
+  intros [x |] [y |] H; cbn [action_eqb] in H; try discriminate; [| reflexivity].
+  f_equal. apply tk_eqb_eq. exact H.
+Qed.
+Lemma action_eqb_refl : forall a, action_eqb a a = true.
+Proof. intros [x |]; cbn [action_eqb]; [apply tk_eqb_refl | reflexivity]. Qed.
+
+Lemma rule_agree_sound : forall x y : rule, rule_agree x y = true ->
+  snd x = snd y /\ forall w, Matches (fst x) w <-> Matches (fst y) w.
+Proof.
+  intros x y H. unfold rule_agree in H. apply andb_true_iff in H. destruct H as [Ha Hr].
+  split; [apply action_eqb_eq; exact Ha |].
+  apply orb_true_iff in Hr. destruct Hr as [Hr | Hr].
+  - apply regex_eqb_eq in Hr. rewrite Hr. reflexivity.
+  - apply andb_true_iff in Hr. destruct Hr as [Hr Hw]. apply andb_true_iff in Hr. destruct Hr as [Hx Hy].
+    intro w. rewrite (lang_correct _ Hx), (lang_correct _ Hy). apply same_words_iff. exact Hw.
+Qed.
+
+Definition rules_equiv (l1 l2 : list rule) : Prop :=
+  length l1 = length l2 /\
+  forall i r1 a1 r2 a2, nth_error l1 i = Some (r1, a1) -> nth_error l2 i = Some (r2, a2) ->
+    a1 = a2 /\ forall w, Matches r1 w <-> Matches r2 w.
+
+Lemma rules_agree_equiv : forall l1 l2, rules_agree l1 l2 = true -> rules_equiv l1 l2.
+Proof.
+  induction l1 as [| x t1 IH]; destruct l2 as [| y t2]; intro H; cbn [rules_agree] in H; try discriminate.
+  - split; [reflexivity |]. intros i r1 a1 r2 a2 H1. destruct i; discriminate.
+  - apply andb_true_iff in H. destruct H as [Hxy Ht]. apply IH in Ht. destruct Ht as [Hl Hn].
+    apply rule_agree_sound in Hxy. destruct Hxy as [Ha Hm].
+    split; [cbn [length]; lia |].
+    intros i r1 a1 r2 a2 H1 H2. destruct i as [| i'].
+    + cbn [nth_error] in H1, H2. injection H1 as H1; injection H2 as H2. subst x y.
+      cbn [fst snd] in *. split; assumption.
+    + cbn [nth_error] in H1, H2. eapply Hn; eassumption.
+Qed.
+
+Lemma rules_equiv_sym : forall l1 l2, rules_equiv l1 l2 -> rules_equiv l2 l1.
+Proof.
+  intros l1 l2 [Hl Hn]. split; [symmetry; exact Hl |].
+  intros i r1 a1 r2 a2 H1 H2. destruct (Hn i r2 a2 r1 a1 H2 H1) as [Ha Hm].
+  split; [symmetry; exact Ha | intro w; symmetry; apply Hm].
+Qed.
+
+Lemma rules_equiv_nth : forall l1 l2 i r1 a, rules_equiv l1 l2 -> nth_error l1 i = Some (r1, a) ->
+  exists r2, nth_error l2 i = Some (r2, a) /\ forall w, Matches r1 w <-> Matches r2 w.
+Proof.
+  intros l1 l2 i r1 a [Hl Hn] H1.
+  destruct (nth_error l2 i) as [[r2 a2] |] eqn:E2.
+  - destruct (Hn i r1 a r2 a2 H1 E2) as [Ha Hm]. subst a2. exists r2. split; [reflexivity | exact Hm].
+  - exfalso. apply nth_error_None in E2.
+    assert (Hlt : i < length l1) by (apply nth_error_Some; rewrite H1; discriminate). lia.
+Qed.
+
+Lemma rules_equiv_nth_none : forall l1 l2 i, rules_equiv l1 l2 -> nth_error l1 i = None -> nth_error l2 i = None.
+Proof.
+  intros l1 l2 i [Hl _] H. apply nth_error_None. apply nth_error_None in H. lia.
+Qed.
+
+Lemma MaxMunch_equiv : forall l1 l2 s len i, rules_equiv l1 l2 -> MaxMunch l1 s len i -> MaxMunch l2 s len i.
+Proof.
+  intros l1 l2 s len i Heq [Hl [[r [a [Hn HM]]] [Hlong Hearly]]].
+  pose proof (rules_equiv_sym _ _ Heq) as Hqe.
+  split; [exact Hl |]. split; [| split].
+  - destruct (rules_equiv_nth _ _ _ _ _ Heq Hn) as [r2 [Hn2 Hm2]].
+    exists r2, a. split; [exact Hn2 | apply Hm2; exact HM].
+  - intros j r2 a2 len' Hn2 Hlen' HM2.
+    destruct (rules_equiv_nth _ _ _ _ _ Hqe Hn2) as [r1 [Hn1 Hm1]].
+    eapply Hlong; [exact Hn1 | exact Hlen' | apply Hm1; exact HM2].
+  - intros j r2 a2 Hj Hn2 HM2.
+    destruct (rules_equiv_nth _ _ _ _ _ Hqe Hn2) as [r1 [Hn1 Hm1]].
+    eapply Hearly; [exact Hj | exact Hn1 | apply Hm1; exact HM2].
+Qed.
+
+Lemma NoMatch_equiv : forall l1 l2 s, rules_equiv l1 l2 -> NoMatch l1 s -> NoMatch l2 s.
+Proof.
+  intros l1 l2 s Heq H j r2 a2 len Hn2 Hlen HM2.
+  destruct (rules_equiv_nth _ _ _ _ _ (rules_equiv_sym _ _ Heq) Hn2) as [r1 [Hn1 Hm1]].
+  eapply H; [exact Hn1 | exact Hlen | apply Hm1; exact HM2].
+Qed.
+
+Lemma max_munch_equiv : forall l1 l2 s, rules_equiv l1 l2 -> max_munch l1 s = max_munch l2 s.
+Proof.
+  intros l1 l2 s Heq.
+  destruct (max_munch l1 s) as [[len i] |] eqn:E1.
+  - apply max_munch_sound in E1. apply (MaxMunch_equiv _ _ _ _ _ Heq) in E1.
+    symmetry. apply MaxMunch_max_munch. exact E1.
+  - apply max_munch_none in E1. apply (NoMatch_equiv _ _ _ Heq) in E1.
+    destruct (max_munch l2 s) as [[len i] |] eqn:E2; [| reflexivity].
+    exfalso. apply max_munch_sound in E2. destruct E2 as [Hl [[r [a [Hn HM]]] _]].
+    exact (E1 i r a len Hn Hl HM).
+Qed.
+
+Lemma next_token_equiv : forall l1 l2, rules_equiv l1 l2 -> forall f s line,
+  next_token f l1 s line = next_token f l2 s line.
+Proof.
+  intros l1 l2 Heq. induction f as [| f IH]; intros s line; [reflexivity |].
+  destruct s as [| c t]; [reflexivity |].
+  rewrite !next_token_cons. rewrite <- (max_munch_equiv _ _ (c :: t) Heq).
+  destruct (max_munch l1 (c :: t)) as [[len i] |]; [| apply IH].
+  destruct (nth_error l1 i) as [[r1 a1] |] eqn:E1.
+  - destruct (rules_equiv_nth _ _ _ _ _ Heq E1) as [r2 [E2 _]]. rewrite E2.
+    destruct a1 as [k |]; [reflexivity | apply IH].
+  - rewrite (rules_equiv_nth_none _ _ _ Heq E1). apply IH.
+Qed.
+
+Lemma lex_all_equiv : forall l1 l2, rules_equiv l1 l2 -> forall f s line,
+  lex_all f l1 s line = lex_all f l2 s line.
+Proof.
+  intros l1 l2 Heq. induction f as [| f IH]; intros s line; [reflexivity |].
+  rewrite !lex_all_S. rewrite <- (next_token_equiv _ _ Heq).
+  destruct (next_token (S (length s)) l1 s line) as [[[[k text] line'] rest] |]; [| reflexivity].
+  f_equal. apply IH.
+Qed.
+
+Lemma C14_rules_agree_meaning_proof : C14_rules_agree_meaning_stmt.
+Proof.
+  intros l1 l2 H. pose proof (rules_agree_equiv _ _ H) as Heq.
+  split; [exact (proj1 Heq) |]. split.
+  - intros i r1 a1 r2 a2 H1 H2. destruct (proj2 Heq i r1 a1 r2 a2 H1 H2) as [Ha Hm].
+    split; [exact Hm | subst a2; apply action_eqb_refl].
+  - intro s. unfold lex. apply lex_all_equiv. exact Heq.
+Qed.
+
+(* ================================================================================================ *)
+(* 5. the generated rule list                                                                       *)
+(* ================================================================================================ *)
+
+Lemma gen_catch_all : catch_all Gen_Lexer.rules.
+Proof.
+  intro c. exists 38, (Alt Any (Chr 10)), (Some NV_ID). split; [reflexivity |].
+  destruct (N.eqb_spec c 10) as [E | E].
+  - subst c. apply M_AltR. constructor.
+  - apply M_AltL. unfold Any. constructor. unfold cmatch, in_rng. cbn [existsb fst snd].
+    destruct (N.leb_spec 10 c) as [H1 | H1]; destruct (N.leb_spec c 10) as [H2 | H2];
+      cbn [andb orb xorb negb]; try reflexivity.
+    exfalso. apply E. lia.
+Qed.
+
+Lemma C14_rules_proof : C14_rules_stmt.
+Proof.
+  split; [vm_compute; reflexivity |].
+  split; [exact gen_catch_all |].
+  split; [vm_compute; reflexivity | reflexivity].
+Qed.
+
+Lemma C14_spellings_proof : C14_spellings_stmt.
+Proof. split; vm_compute; reflexivity. Qed.
+
+Definition unknown_byte_check (c : N) : bool :=
+  negb (negb (in_rng c SpecLex.alnum) && negb (existsb (N.eqb c) [32; 9; 10; 40; 41; 44; 59; 58; 61]%N))
+  || match lex Gen_Lexer.rules [c] with
+     | [(NV_ID, [c'], 1%Z)] => N.eqb c c'
+     | _ => false
+     end.
+
+Lemma unknown_byte_sweep : forallb unknown_byte_check (map N.of_nat (seq 0 256)) = true.
+Proof. vm_compute. reflexivity. Qed.
+
+Lemma C14_unknown_byte_proof : C14_unknown_byte_stmt.
+Proof.
+  intros c known Hc Hal Hkn. subst known.
+  pose proof unknown_byte_sweep as Hs. rewrite forallb_forall in Hs.
+  assert (Hin : In c (map N.of_nat (seq 0 256))).
+  { apply in_map_iff. exists (N.to_nat c). split; [apply N2Nat.id |]. apply in_seq. lia. }
+  apply Hs in Hin. unfold unknown_byte_check in Hin.
+  rewrite Hal, Hkn in Hin. cbn [negb andb orb] in Hin.
+  destruct (lex Gen_Lexer.rules [c]) as [| [[k text] line] tl]; [discriminate |].
+  destruct k; try discriminate.
+  destruct text as [| c' text']; [discriminate |].
+  destruct text' as [| c'' text'']; [| discriminate].
+  destruct line as [| p | p]; try discriminate.
+  destruct p; try discriminate.
+  destruct tl; [| discriminate].
+  apply N.eqb_eq in Hin. subst c'. reflexivity.
+Qed.
+
+(* ================================================================================================ *)
+Print Assumptions C14_matcher_proof.
+Print Assumptions C14_maxmunch_proof.
+Print Assumptions C14_lex_proof.
+Print Assumptions C14_rules_agree_meaning_proof.
+Print Assumptions C14_rules_proof.
+Print Assumptions C14_spellings_proof.
+Print Assumptions C14_unknown_byte_proof.
